@@ -47,6 +47,10 @@ type refEnt struct {
 type runner struct {
 	r *vlib.Run
 	o *vlib.Oracle
+	// failure classes already reported in this run (kind+key): a class is shrunk and reported once; the search goes on
+	// after model/implementation disagreements until a concrete property failure is found
+	reported  map[string]bool
+	propFound int // property failures outside the known finding
 }
 
 var realStdout = os.Stdout
@@ -489,6 +493,15 @@ func (x *runner) runHistory(h *History, count bool) (fails []failure) {
 		} else if count {
 			r.TieOK()
 		}
+		// the oracle runs the durable-map specification next to the model: the model's own reply must satisfy the
+		// retention-aware claim (Props/C16.lean `store_refines_map_retention_statement`, proved for keep = 0, OPEN otherwise)
+		if op.Op == "get" || op.Op == "len" {
+			if c := x.o.MustAsk("claim"); c != "ok" {
+				fail("tie", "model-violates-retention-claim", fmt.Sprintf("%s: the model's reply %q does not satisfy the durable-map claim within retention (%s)", where, short(model), c))
+			} else if count {
+				hit("claimR:ok")
+			}
+		}
 		if panicked {
 			hit("panic:" + op.Op)
 			// the real store holds db.mutex forever after this panic: the history ends here
@@ -605,11 +618,18 @@ func (x *runner) doHistory(h *History) {
 		r.Hit("blockkind:" + b.Kind)
 	}
 	for _, f := range fails {
+		if x.reported[f.Kind+f.Key] {
+			continue
+		}
+		x.reported[f.Kind+f.Key] = true
 		hh := h
 		if len(h.Ops) <= 80 && nb < 1<<20 {
 			hh = x.shrink(h, f.Key)
 		}
 		rep := map[string]interface{}{"history": hh}
+		if f.Kind == "prop" && f.Key != "backup-shadowed-by-new-file" {
+			x.propFound++
+		}
 		if f.Kind == "prop" {
 			r.PropFail(f.Key, f.What, rep)
 		} else {
@@ -831,7 +851,7 @@ func main() {
 		r.Finish(rule, expl)
 	}
 
-	x := &runner{r, o}
+	x := &runner{r: r, o: o, reported: map[string]bool{}}
 	r.Assume = []string{
 		"block hash = double-SHA256 of the first 80 bytes (as LoadBlockIndex recomputes it); no two stored blocks share the first 8 hash bytes (BIdx)",
 		"flush points are the ones the code has: BlockAdd thresholds (1024 blocks / 16 MiB queued), Idle, Close; the removeDatFile goroutine is awaited after every operation",
@@ -916,7 +936,9 @@ func main() {
 		if i < 3 {
 			r.Sample(h)
 		}
-		if r.Violations() > 8 {
+		// a model/implementation disagreement alone does not end the search: go on until the property itself is seen
+		// to fail on the real code (the Go map decides that), then stop early
+		if x.propFound >= 2 {
 			break
 		}
 	}
